@@ -167,7 +167,7 @@ def attribute(plan, diff, real, ref, mode):
     re_, fe = norm_events(real.events), norm_events(ref.events)
     kind = diff[0]
     if ref.error is not None and ref.error[0] == 'parse' and ref.extra.get('parse_in_call') and \
-            len(re_) > len(fe) and re_[:len(fe)] == fe:
+            len(re_) >= len(fe) and re_[:len(fe)] == fe:
         return Violation(PROP, 'errors', 'parser-error-of-include-contained-by-enclosing-function-call',
                          {'location': ref.error[1], 'real_error': real.error,
                           'note': 'include statement executed inside a script function; the broken text was '
